@@ -15,6 +15,9 @@
 (*              set in ascending order, one critical section               *)
 (*              (subscribeSignal / unsubscribeSignal under _signal_lock_)  *)
 (*              per signal; calls of different loops interleave            *)
+(*   held       loops whose thread is kept busy in a task (numbers queue   *)
+(*              up in their pipes: batches); only the sequential actions   *)
+(*              hold/release change it                                      *)
 (*   h          the activation of the async signal handler: call the old   *)
 (*              handler, then write the number to every pipe in ctx[S]     *)
 (* One action per critical section / handler step / pipe read.  The        *)
@@ -37,10 +40,13 @@ CONSTANTS
   Redundant,  \* TRUE: also enable() an enabled event / disable() a disabled one (no-ops)
   Bug         \* "none", or a seeded design defect (such configurations are expected to violate an invariant)
 
-VARIABLES cfg, kind, st, k, op, h, g, fired
-vars == <<cfg, kind, st, k, op, h, g, fired>>
+VARIABLES held, cfg, kind, st, k, op, h, g, fired
+vars == <<held, cfg, kind, st, k, op, h, g, fired>>
 
-EvRec == [used : BOOLEAN, L : Loops, sigs : SUBSET Sigs, os : BOOLEAN]
+\* prog: what the event's callback does each time it fires - a sequence of [o |-> "enable"|"disable"|"destroy", a |-> event]
+\* executed on the loop thread from inside the callback (only events of the same loop are touched)
+ProgOp == [o : {"enable", "disable", "destroy"}, a : Events]
+EvRec == [used : BOOLEAN, L : Loops, sigs : SUBSET Sigs, os : BOOLEAN, prog : Seq(ProgOp)]
 IsFunc(x) == x \in {"info", "plain"}
 
 OrigOf(kd, S) == [h |-> kd[S], f |-> "f0", m |-> "m0"]            \* sentinel: distinctive flags and mask
@@ -91,23 +97,48 @@ SubAll(kk, L, e, todo) == IF todo = {} THEN kk ELSE LET S == Min(todo) IN SubAll
 RECURSIVE UnsubAll(_, _, _, _)
 UnsubAll(kk, L, e, todo) == IF todo = {} THEN kk ELSE LET S == Min(todo) IN UnsubAll(Unsub(kk, L, S, e), L, e, todo \ {S})
 
-\* CommonLoop::onSignal() for one number: every subscriber of the COPIED set is called;
-\* SignalEventImpl::onSignal(): a one-shot disables itself (all its signals) before its callback
-RECURSIVE ReadFold(_, _, _, _)
-ReadFold(kk, stt, L, todo) ==
-  IF todo = {} THEN [k |-> kk, st |-> stt]
-  ELSE LET e == Min(todo) IN
-       IF cfg[e].os /\ stt[e] = "on" /\ Bug # "oneshotstays"
-       THEN ReadFold(UnsubAll(kk, L, e, cfg[e].sigs), [stt EXCEPT ![e] = "off"], L, todo \ {e})
-       ELSE ReadFold(kk, stt, L, todo \ {e})
+\* One subscription call made on loop L's thread from inside a callback or as part of a batch task.  r = [k, st, exc, en]:
+\* exc = events unsubscribed by such calls, en = events switched off -> on.  Calls on events that do not exist (or
+\* belong to another loop) are skipped.
+Op1(r, L, o) ==
+  LET a == o.a IN
+  IF a \notin Events \/ ~cfg[a].used \/ cfg[a].L # L \/ r.st[a] \notin {"on", "off"} THEN r
+  ELSE CASE o.o = "enable"  -> [r EXCEPT !.k = SubAll(r.k, L, a, cfg[a].sigs), !.st[a] = "on",
+                                          !.en = IF r.st[a] = "off" THEN @ \cup {a} ELSE @]
+         [] o.o = "disable" -> [r EXCEPT !.k = IF r.st[a] = "on" THEN UnsubAll(r.k, L, a, cfg[a].sigs) ELSE @, !.st[a] = "off",
+                                          !.exc = IF r.st[a] = "on" THEN @ \cup {a} ELSE @]
+         [] o.o = "destroy" -> [r EXCEPT !.k = IF r.st[a] = "on" THEN UnsubAll(r.k, L, a, cfg[a].sigs) ELSE @, !.st[a] = "absent",
+                                          !.exc = IF r.st[a] = "on" THEN @ \cup {a} ELSE @]
+         [] OTHER -> r
+RECURSIVE RunOps(_, _, _)
+RunOps(r, L, ops) == IF ops = <<>> THEN r ELSE RunOps(Op1(r, L, Head(ops)), L, Tail(ops))
+R0(kk, stt) == [k |-> kk, st |-> stt, exc |-> {}, en |-> {}]
+
+\* CommonLoop::onSignal() for one number: the subscribers of the COPIED set are called, here in the given order;
+\* SignalEventImpl::onSignal(): a one-shot disables itself (all its signals) before its callback; the callback then
+\* runs the event's program
+RECURSIVE CallSeq(_, _, _)
+CallSeq(r, L, order) ==
+  IF order = <<>> THEN r
+  ELSE LET e == Head(order)
+           r1 == IF cfg[e].os /\ r.st[e] = "on" /\ Bug # "oneshotstays"
+                 THEN [r EXCEPT !.k = UnsubAll(r.k, L, e, cfg[e].sigs), !.st[e] = "off"] ELSE r
+       IN CallSeq(RunOps(r1, L, cfg[e].prog), L, Tail(order))
+
+RECURSIVE SeqOf(_)
+SeqOf(X) == IF X = {} THEN <<>> ELSE <<Min(X)>> \o SeqOf(X \ {Min(X)})
+\* the order in which std::set<SignalSubscribuer*> serves the subscribers is the order of their addresses: any order.
+\* It only matters when a callback changes subscriptions.
+Orders(X) == IF \A e \in X : cfg[e].prog = <<>> THEN {SeqOf(X)}
+             ELSE {p \in [1..Cardinality(X) -> X] : \A i, j \in 1..Cardinality(X) : i # j => p[i] # p[j]}
 
 ReadCalled(kk, L) ==
   LET S == Head(kk.pipe[L])
       all == kk.subs[L][S]
   IN IF Bug = "firstonly" /\ all # {} THEN {Min(all)} ELSE all
 
-ReadF(kk, stt, L) ==
-  LET k0 == [kk EXCEPT !.pipe[L] = Tail(@)] IN ReadFold(k0, stt, L, ReadCalled(kk, L))
+\* one number, subscribers served in ascending order (generator)
+ReadF(kk, stt, L) == CallSeq(R0([kk EXCEPT !.pipe[L] = Tail(@)], stt), L, SeqOf(ReadCalled(kk, L)))
 
 \* the whole handler at once (used by the sequential actions)
 RECURSIVE WriteAll(_, _, _)
@@ -123,18 +154,19 @@ OldCalls(S) == IF Bug = "skipold" THEN 0
                ELSE IF IsFunc(k.ctx[S].old.h) THEN 1 ELSE 0
 
 -----------------------------------------------------------------------------
-Quiescent == h.pc = "idle" /\ \A L \in Loops : k.pipe[L] = <<>>
+Quiescent == h.pc = "idle" /\ \A L \in Loops \ held : k.pipe[L] = <<>>
 RaiseOK   == MaxRaises = 0 \/ g.raises < MaxRaises           \* MaxRaises = 0: unbounded (the state space is finite anyway)
 Bump      == IF MaxRaises = 0 THEN 0 ELSE g.raises + 1
 \* the ghost record of the last delivery is dropped when the next subscription call starts
-ClearG    == [g EXCEPT !.sig = 0, !.want = {}, !.got = [e \in Events |-> 0], !.sent = 0]
+ClearG    == [g EXCEPT !.sig = 0, !.want = {}, !.got = [e \in Events |-> 0], !.sent = 0, !.exc = {}]
 NoOps     == \A L \in Loops : op[L].t = "none"
 
 K0(kd) == [subs |-> [L \in Loops |-> [S \in Sigs |-> {}]], hp |-> [L \in Loops |-> FALSE], pipe |-> [L \in Loops |-> <<>>],
            ctx |-> [S \in Sigs |-> NoCtx], disp |-> [S \in Sigs |-> OrigOf(kd, S)]]
 Op0 == [L \in Loops |-> NoOp]
-G0  == [sig |-> 0, want |-> {}, got |-> [e \in Events |-> 0], sent |-> 0, raises |-> 0, bad |-> FALSE]
+G0  == [sig |-> 0, want |-> {}, got |-> [e \in Events |-> 0], sent |-> 0, raises |-> 0, bad |-> FALSE, exc |-> {}]
 Init ==
+  /\ held = {}
   /\ cfg \in Configs
   /\ kind \in [Sigs -> Kinds]
   /\ st = [e \in Events |-> IF cfg[e].used THEN "off" ELSE "none"]
@@ -146,19 +178,19 @@ Init ==
 
 (* ---- subscription calls, executed on the event's loop thread ---- *)
 Create(e) ==            \* newSignalEvent + initialize + setCallback
-  /\ Used(e) /\ st[e] = "absent" /\ op[cfg[e].L].t = "none" /\ Quiescent
+  /\ Used(e) /\ st[e] = "absent" /\ op[cfg[e].L].t = "none" /\ cfg[e].L \notin held /\ Quiescent
   /\ st' = [st EXCEPT ![e] = "off"] /\ fired' = [fired EXCEPT ![e] = 0] /\ g' = ClearG
-  /\ UNCHANGED <<cfg, kind, k, op, h>>
+  /\ UNCHANGED <<held, cfg, kind, k, op, h>>
 
 OpBegin(e, t) ==
-  /\ Used(e) /\ op[cfg[e].L].t = "none" /\ Quiescent
+  /\ Used(e) /\ op[cfg[e].L].t = "none" /\ cfg[e].L \notin held /\ Quiescent
   /\ CASE t = "enable"  -> st[e] = "off" \/ (Redundant /\ st[e] = "on")
        [] t = "disable" -> st[e] = "on" \/ (Redundant /\ st[e] = "off")
        [] t = "destroy" -> st[e] \in {"off", "on"}
   /\ op' = [op EXCEPT ![cfg[e].L] = [t |-> t, e |-> e,
                                       todo |-> IF t = "enable" \/ st[e] = "on" THEN cfg[e].sigs ELSE {}]]   \* disable(): only if is_enabled_
   /\ g' = ClearG
-  /\ UNCHANGED <<cfg, kind, st, k, h, fired>>
+  /\ UNCHANGED <<held, cfg, kind, st, k, h, fired>>
 EnableBegin(e)  == OpBegin(e, "enable")
 DisableBegin(e) == OpBegin(e, "disable")
 DestroyBegin(e) == OpBegin(e, "destroy")
@@ -168,7 +200,7 @@ OpStep(L) ==            \* one subscribeSignal / unsubscribeSignal
   /\ LET S == Min(op[L].todo) IN
        /\ k' = IF op[L].t = "enable" THEN Sub(k, L, S, op[L].e) ELSE Unsub(k, L, S, op[L].e)
        /\ op' = [op EXCEPT ![L].todo = @ \ {S}]
-  /\ UNCHANGED <<cfg, kind, st, h, g, fired>>
+  /\ UNCHANGED <<held, cfg, kind, st, h, g, fired>>
 
 OpEnd(L) ==
   /\ op[L].t # "none" /\ op[L].todo = {}
@@ -176,7 +208,7 @@ OpEnd(L) ==
        /\ st' = [st EXCEPT ![e] = CASE op[L].t = "enable" -> "on" [] op[L].t = "disable" -> "off" [] OTHER -> "absent"]
        /\ fired' = IF op[L].t = "enable" /\ st[e] = "off" THEN [fired EXCEPT ![e] = 0] ELSE fired
   /\ op' = [op EXCEPT ![L] = NoOp]
-  /\ UNCHANGED <<cfg, kind, k, h, g>>
+  /\ UNCHANGED <<held, cfg, kind, k, h, g>>
 
 (* ---- a delivery of S ---- *)
 RaiseBegin(S) ==
@@ -184,17 +216,17 @@ RaiseBegin(S) ==
   /\ k.disp[S].h # "dfl"                          \* the default action would end the process: not raised
   /\ IF k.disp[S].h = "tbox"
      THEN /\ h' = [pc |-> "old", s |-> S, todo |-> {}, last |-> 0]
-          /\ g' = [sig |-> S, want |-> OnFor(S), got |-> [e \in Events |-> 0], sent |-> 0, raises |-> Bump, bad |-> g.bad]
+          /\ g' = [sig |-> S, want |-> OnFor(S), got |-> [e \in Events |-> 0], sent |-> 0, raises |-> Bump, bad |-> g.bad, exc |-> {}]
      ELSE /\ h' = Idle                              \* the kernel runs the pre-existing disposition itself
           /\ g' = [sig |-> S, want |-> OnFor(S), got |-> [e \in Events |-> 0],
-                   sent |-> IF IsFunc(k.disp[S].h) THEN 1 ELSE 0, raises |-> Bump, bad |-> g.bad]
-  /\ UNCHANGED <<cfg, kind, st, k, op, fired>>
+                   sent |-> IF IsFunc(k.disp[S].h) THEN 1 ELSE 0, raises |-> Bump, bad |-> g.bad, exc |-> {}]
+  /\ UNCHANGED <<held, cfg, kind, st, k, op, fired>>
 
 HandlerOld ==           \* SignalHandlerFunc: "run the old handler first"
   /\ h.pc = "old"
   /\ g' = [g EXCEPT !.sent = @ + OldCalls(h.s)]
   /\ h' = [h EXCEPT !.pc = "write", !.todo = Snapshot(k.ctx[h.s].pipes)]
-  /\ UNCHANGED <<cfg, kind, st, k, op, fired>>
+  /\ UNCHANGED <<held, cfg, kind, st, k, op, fired>>
 
 \* Intended (and, since fix 809fdc6, actual) behaviour: the descriptors were copied before the first write (h.todo is
 \* that snapshot).  As found (Bug = "liveiter") the handler iterated the live std::set while a loop woken by the
@@ -206,23 +238,26 @@ HandlerWrite(L) ==      \* write(fd, &signo) for one subscribed loop
   /\ k' = IF k.hp[L] THEN [k EXCEPT !.pipe[L] = Append(@, h.s)] ELSE k
   /\ g' = [g EXCEPT !.bad = @ \/ ~k.hp[L]]          \* a write to a closed (or recycled) descriptor
   /\ h' = [h EXCEPT !.todo = @ \ {L}, !.last = L]
-  /\ UNCHANGED <<cfg, kind, st, op, fired>>
+  /\ UNCHANGED <<held, cfg, kind, st, op, fired>>
 
 HandlerReturn ==
   /\ h.pc = "write" /\ (h.todo = {} \/ IterLost)
   /\ h' = Idle
-  /\ UNCHANGED <<cfg, kind, st, k, op, g, fired>>
+  /\ UNCHANGED <<held, cfg, kind, st, k, op, g, fired>>
 
 LoopRead(L) ==          \* the loop thread reads one number from its pipe and dispatches it
-  /\ op[L].t = "none" /\ k.hp[L] /\ k.pipe[L] # <<>>
+  /\ op[L].t = "none" /\ L \notin held /\ k.hp[L] /\ k.pipe[L] # <<>>
   /\ LET S == Head(k.pipe[L])
          called == ReadCalled(k, L)
-         r == ReadF(k, st, L)
-     IN /\ k' = r.k /\ st' = r.st
-        /\ g' = [g EXCEPT !.got = [e \in Events |-> IF e \in called THEN @[e] + 1 ELSE @[e]],
-                          !.bad = @ \/ S # g.sig \/ \E e \in called : cfg[e].L # L]      \* wrong signal number / wrong thread
-        /\ fired' = [e \in Events |-> IF e \in called /\ cfg[e].os THEN fired[e] + 1 ELSE fired[e]]     \* counted for one-shots only
-  /\ UNCHANGED <<cfg, kind, op, h>>
+     IN \E order \in Orders(called) :
+          LET r == CallSeq(R0([k EXCEPT !.pipe[L] = Tail(@)], st), L, order) IN
+          /\ k' = r.k /\ st' = r.st
+          /\ g' = [g EXCEPT !.got = [e \in Events |-> IF e \in called THEN @[e] + 1 ELSE @[e]],
+                            !.exc = @ \cup r.exc,                                               \* unsubscribed by a callback of this delivery
+                            !.bad = @ \/ S # g.sig \/ \E e \in called : cfg[e].L # L]      \* wrong signal number / wrong thread
+          /\ fired' = [e \in Events |-> IF e \in r.en THEN 0
+                                        ELSE IF e \in called /\ cfg[e].os THEN fired[e] + 1 ELSE fired[e]]   \* counted for one-shots only
+  /\ UNCHANGED <<held, cfg, kind, op, h>>
 
 Next ==
   \/ \E e \in Events : Create(e) \/ EnableBegin(e) \/ DisableBegin(e) \/ DestroyBegin(e)
@@ -236,39 +271,56 @@ Spec == Init /\ [][Next]_vars
 (* Sequential (whole-call) actions: what one awaited driver step does.      *)
 (* Used by the behaviour generator and by trace validation.                 *)
 SEnable(e) ==
-  /\ Used(e) /\ NoOps /\ Quiescent /\ (st[e] = "off" \/ (Redundant /\ st[e] = "on"))
+  /\ Used(e) /\ NoOps /\ Quiescent /\ cfg[e].L \notin held /\ (st[e] = "off" \/ (Redundant /\ st[e] = "on"))
   /\ k' = SubAll(k, cfg[e].L, e, cfg[e].sigs)
   /\ st' = [st EXCEPT ![e] = "on"]
   /\ fired' = IF st[e] = "off" THEN [fired EXCEPT ![e] = 0] ELSE fired
   /\ g' = ClearG
-  /\ UNCHANGED <<cfg, kind, op, h>>
+  /\ UNCHANGED <<held, cfg, kind, op, h>>
 SDisable(e) ==
-  /\ Used(e) /\ NoOps /\ Quiescent /\ (st[e] = "on" \/ (Redundant /\ st[e] = "off"))
+  /\ Used(e) /\ NoOps /\ Quiescent /\ cfg[e].L \notin held /\ (st[e] = "on" \/ (Redundant /\ st[e] = "off"))
   /\ k' = IF st[e] = "on" THEN UnsubAll(k, cfg[e].L, e, cfg[e].sigs) ELSE k
   /\ st' = [st EXCEPT ![e] = "off"] /\ g' = ClearG
-  /\ UNCHANGED <<cfg, kind, op, h, fired>>
+  /\ UNCHANGED <<held, cfg, kind, op, h, fired>>
 SDestroy(e) ==
-  /\ Used(e) /\ NoOps /\ Quiescent /\ st[e] \in {"on", "off"}
+  /\ Used(e) /\ NoOps /\ Quiescent /\ cfg[e].L \notin held /\ st[e] \in {"on", "off"}
   /\ k' = IF st[e] = "on" THEN UnsubAll(k, cfg[e].L, e, cfg[e].sigs) ELSE k
   /\ st' = [st EXCEPT ![e] = "absent"] /\ g' = ClearG
-  /\ UNCHANGED <<cfg, kind, op, h, fired>>
+  /\ UNCHANGED <<held, cfg, kind, op, h, fired>>
 SCreate(e) == Create(e)
 SRaise(S) ==            \* the delivery up to the return of the handler
   /\ Quiescent /\ NoOps /\ RaiseOK /\ k.disp[S].h # "dfl"
   /\ IF k.disp[S].h = "tbox"
      THEN /\ k' = WriteAll(k, S, Snapshot(k.ctx[S].pipes))
           /\ g' = [sig |-> S, want |-> OnFor(S), got |-> [e \in Events |-> 0], sent |-> OldCalls(S), raises |-> Bump,
-                   bad |-> g.bad \/ \E L \in k.ctx[S].pipes : ~k.hp[L]]
+                   bad |-> g.bad \/ (\E L \in k.ctx[S].pipes : ~k.hp[L]), exc |-> {}]
      ELSE /\ k' = k
           /\ g' = [sig |-> S, want |-> OnFor(S), got |-> [e \in Events |-> 0],
-                   sent |-> IF IsFunc(k.disp[S].h) THEN 1 ELSE 0, raises |-> Bump, bad |-> g.bad]
-  /\ UNCHANGED <<cfg, kind, st, op, h, fired>>
+                   sent |-> IF IsFunc(k.disp[S].h) THEN 1 ELSE 0, raises |-> Bump, bad |-> g.bad, exc |-> {}]
+  /\ UNCHANGED <<held, cfg, kind, st, op, h, fired>>
 SRead(L) == LoopRead(L)
+\* several subscription calls in ONE task of loop L: no loop pass (no deferred deletion) happens in between
+SBatch(L, ops) ==
+  /\ L \in Loops \ held /\ NoOps /\ Quiescent
+  /\ LET r == RunOps(R0(k, st), L, ops) IN
+       /\ k' = r.k /\ st' = r.st
+       /\ fired' = [e \in Events |-> IF e \in r.en THEN 0 ELSE fired[e]]
+  /\ g' = ClearG
+  /\ UNCHANGED <<held, cfg, kind, op, h>>
+\* the thread of loop L is kept busy inside a task: deliveries raised meanwhile queue up in its pipe and are read as a batch
+SHold(L) ==
+  /\ L \in Loops \ held /\ NoOps /\ Quiescent
+  /\ held' = held \cup {L} /\ g' = ClearG
+  /\ UNCHANGED <<cfg, kind, st, k, op, h, fired>>
+SRelease(L) ==
+  /\ L \in held /\ NoOps /\ Quiescent
+  /\ held' = held \ {L} /\ g' = ClearG
+  /\ UNCHANGED <<cfg, kind, st, k, op, h, fired>>
 
 SNext ==
   \/ \E e \in Events : SCreate(e) \/ SEnable(e) \/ SDisable(e) \/ SDestroy(e)
   \/ \E S \in Sigs : SRaise(S)
-  \/ \E L \in Loops : SRead(L)
+  \/ \E L \in Loops : SRead(L) \/ SHold(L) \/ SRelease(L)
 SSpec == Init /\ [][SNext]_vars
 
 -----------------------------------------------------------------------------
@@ -285,7 +337,8 @@ TypeOK ==
 EveryEnabledGetsOne ==
   /\ \A e \in Events : g.got[e] <= (IF e \in g.want THEN 1 ELSE 0)
   /\ ~g.bad
-  /\ (Quiescent /\ g.sig # 0) => \A e \in g.want : g.got[e] = 1
+  /\ (Quiescent /\ g.sig # 0) => \A e \in g.want \ g.exc : g.got[e] = 1      \* an event that a callback of this very delivery
+                                                                                \* unsubscribed may or may not have been served
 
 \* a handler installed before the first subscription is still invoked, once per delivery
 OldHandlerChained ==
